@@ -18,7 +18,8 @@ package db
 //     seen since the previous commit, in order; its Index is the index given to the last Reset;
 //     every event carries the column names of its table (or an error text when they cannot be
 //     read); the commit timestamp is the time of the commit;
-//   - nothing is left pending after a commit, and Reset drops whatever was pending.
+//   - nothing is left pending after a commit, and Reset drops whatever was pending (row events of
+//     a statement that was undone and never committed).
 // The hand-off channel is kept from filling (the documented drop is excluded).
 
 import (
@@ -154,6 +155,15 @@ func verifC25Drive(nEntries, maxCommits, maxRows int, twin bool) {
 			verifAssert("C25-group-carries-index-of-last-reset", g.Index == idx)
 			handedOut++
 		}
+		// the last statement of the request may fail after it changed a row: SQLite undoes it and
+		// no commit follows; the row event stays pending until Reset ("all pending events are cleared")
+		if e+1 < nEntries && verifChoice(verifName("rolledBack", e), 2) == 1 {
+			verifReach("rolled-back-row-event")
+			nid++
+			ev := &command.CDCEvent{Op: command.CDCEvent_INSERT, Table: "t", NewRowId: nid}
+			verifAssert("C25-preupdate-hook-ok", s.PreupdateHook(ev) == nil)
+			nid++ // keep the table alternation of the following rows independent of this choice
+		}
 	}
 	verifAssert("C25-nothing-handed-out-late", len(verifC25Take(out)) == 0)
 }
@@ -170,7 +180,11 @@ func VerifC25Streamer() {
 // VerifC25SingleCommit: entries that commit at most once (single statements, explicit
 // transactions): the streamer must be flawless here (no recorded finding can hide anything).
 func VerifC25SingleCommit() {
-	verifC25Drive(3, 1, 2, false)
+	if verifTier() == 1 {
+		verifC25Drive(3, 1, 2, false)
+		return
+	}
+	verifC25Drive(2, 1, 2, false)
 }
 
 // VerifC25Twin: same world; the final assertion contradicts the property and must fail.
